@@ -2124,19 +2124,16 @@ Proof.
   apply WF_seq; [apply WF_restore_refs_one; exact H | exact IH].
 Qed.
 
-Lemma WF_restore_invs_one (e : oid) l : forall s, WF m s -> WF m (snd (restore_invs_one m e l s)).
+Lemma WF_restore_sorted l : forall s, WF m s -> WF m (snd (restore_sorted m l s)).
 Proof.
-  induction l as [|[i [a h]] r IH]; intros s H; cbn [restore_invs_one]; [exact H|].
+  induction l as [|[i [e [a h]]] r IH]; intros s H; cbn [restore_sorted]; [exact H|].
   apply WF_seq; [|exact IH]. cbn [snd]. destruct (f_many (fd m h)) eqn:M.
   - apply (WF_coll_add_full m W); assumption.
   - apply (WF_set_full m W); assumption.
 Qed.
 
 Lemma WF_restore_invs l : forall s, WF m s -> WF m (snd (restore_invs m l s)).
-Proof.
-  induction l as [|[e il] r IH]; intros s H; cbn [restore_invs]; [exact H|].
-  apply WF_seq; [apply WF_restore_invs_one; exact H | exact IH].
-Qed.
+Proof. intros s H. unfold restore_invs. apply WF_restore_sorted. exact H. Qed.
 
 Theorem delete_keeps_WF s (x : oid) r i :
   WF m s ->
@@ -2276,7 +2273,7 @@ Theorem leaf_delete_undo s :
 Proof.
   intros L s' c'. split; [exact (leaf_do_delete s L)|].
   pose proof (leaf_delete_state (length (ocls m)) s L) as CC. fold s' in CC. split; [exact CC|].
-  intros t Ht. split; [reflexivity|]. unfold c'. cbn [undo restore_refs restore_invs restore_invs_one].
+  intros t Ht. split; [reflexivity|]. unfold c'. unfold restore_invs. cbn [undo restore_refs restore_sorted sort_invs flat_invs flat_map map app fold_left fst snd].
   destruct (leaf_split s L) as (l1 & l2 & E & H1 & H2). rewrite E, map_app, restore_refs_one_app. cbn [map].
   pose proof Ht as (Vt & Ct & Et & Rt).
   assert (Nxp : forall h : fid, ((p, f) : cell) <> (x, h)) by (intros h E0; inversion E0; exact (lf_neq s L ltac:(assumption))).
